@@ -66,7 +66,10 @@ Exit(s, ev, ln) ==
                  \cup (IF ev.st = 0 /\ RuleDecides(f) THEN {"rule_values"} ELSE {})
                  \cup (IF ev.st = 0 /\ IsMateScore(ev.v) THEN {"mate_scores"} ELSE {})
                  \cup (IF faults # {} THEN {"viol"} ELSE {})
-    IN [s EXCEPT !.stk = SubSeq(s.stk, 1, Len(s.stk) - 1), !.cnt = Bump(s.cnt, feats),
+        rest == SubSeq(s.stk, 1, Len(s.stk) - 1)
+        rest2 == IF rest # <<>> /\ ev.st = 1 /\ f.how = "move" /\ f.ply = rest[Len(rest)].ply + 1
+                 THEN [rest EXCEPT ![Len(rest)].ab = TRUE, ![Len(rest)].abp = f.g.cur] ELSE rest
+    IN [s EXCEPT !.stk = rest2, !.cnt = Bump(s.cnt, feats),
                  !.viol = IF faults = {} THEN <<>> ELSE
                           <<V(ln, "exit", Fen(f.g.cur), [faults |-> faults, v |-> ev.v, frame |-> <<f.q, f.ply, f.d, f.a, f.b>>, how |-> f.how,
                                                          chk |-> f.chk, nlegal |-> Cardinality(f.legal), got |-> <<ev.q, ev.p>>])>>]
